@@ -36,6 +36,12 @@ CHECKS["C07"] = dict(
   technique="Lean 4 proof (refinement to first-match spec + structural recursion bound) + differential correspondence (go test -overlay)",
   design="§10 C07")
 
+CHECKS["C02"] = dict(
+  text="Lean theorems (unbounded: all installed programs, packets, reload histories): the byte-level model of the kernel route() (state bits, per-word domain cache, active length clamp, error results, packed s64) over the byte image the Go builder writes returns pack(dnsAdjust(userspace Match)) — routeK_eq_userspace, chained to C01's first-match specification (kernel_eq_first_match_spec); every field the kernel reads from the Go image decodes to the value written (decode_encode_little), LPM keys / domain bit / packed result agree, ring-slot rewrite injective and disjoint across consecutive generations (with the exact overlap bound), big-endian negative result stated. Three-way tie on every run: real Go Match vs native route() compiled from /repo's tproxy.c (ASan+UBSan) on the Go-emitted bytes vs the Lean model, plus constant/layout cross-checks.",
+  note="Trusted: Lean kernel + standard axioms; kernel LPM-trie contract, verifier acceptance, bpf_loop cap; H2 (installed domain bitmap = userspace bitmap) is C10/C11's subject; map update syscalls of buildRoutingKernspace are mirrored by the harness with a textual tripwire; C shim helper/map semantics.",
+  technique="Lean 4 proof (byte-level refinement kernel = userspace = first-match spec) + three-way differential correspondence (Go overlay harness, native C build of tproxy.c)",
+  design="§10 C02")
+
 def main():
     checks = []
     for pid in ALL:
